@@ -30,8 +30,14 @@ def bounds(tier):
             'raw_depth': 8 if tier == 'quick' else 10}
 
 
+ENTRY_SPECS = [[['split', 'even', [['to_list']]]], [['split', 'even', [['count', True]]]]]
+ENTRY_OTHER = [['split', 'even', [['to_list']]], ['count']]
+ENTRY_ITEMS = [[0, 2, 1, 3, 4], [1, 1, 2, 4]]
+
+
 def units(tier):
     out = []
+    out.append({'fam': 'entry'})
     L = 8 if tier == 'quick' else 10
     nt = 8 if tier == 'quick' else 16
     for p in PREDS:
@@ -57,6 +63,12 @@ def units(tier):
 
 
 def cases(unit):
+    if unit.get('fam') == 'entry':
+        # the operator reached through the `sources=` entry point of with_store: two live sources share one store
+        for si in range(len(ENTRY_SPECS)):
+            for order in spaces.interleavings([len(ENTRY_ITEMS[0]), len(ENTRY_ITEMS[1])]):
+                yield {'fam': 'entry', 'spec': si, 'order': order}
+        return
     fam = unit['fam']
     if fam == 'top':
         sh, n = unit['shard']
@@ -95,6 +107,14 @@ def viol(fam, sym, detail):
 
 
 def run_case(case, acc):
+    if case.get('fam') == 'entry':
+        specs = [ENTRY_SPECS[case['spec']], ENTRY_OTHER]
+        acc.evals += 1
+        acc.traces += 2
+        acc.events += len(case['order']) + 2
+        acc.count('sources_entry_point_runs')
+        acc.outcomes.add(fast_hash(repr(case)))
+        return [viol('entry', 'sources-entry-point-source-%d-segments-%s' % (k, kind), {'pipelines': specs, 'order': case['order'], 'expected': exp, 'observed': got, 'error': err}) for (k, kind, exp, got, err) in harness.sources_problems(specs, ENTRY_ITEMS, case['order'])][:1]
     fam = case['fam']
     if fam == 'raw':
         return run_raw(case, acc)
